@@ -25,6 +25,7 @@ import (
 	"fmt"
 	"io"
 	"log"
+	"math"
 	"math/rand"
 	"net/http"
 	"net/url"
@@ -39,6 +40,23 @@ import (
 )
 
 const maxJitter = 250 * time.Millisecond
+
+// maxRetryAfterSeconds is the largest whole number of seconds that fits in a
+// time.Duration.
+const maxRetryAfterSeconds = math.MaxInt64 / int64(time.Second)
+
+// retryAfterDuration converts a Retry-After value given in seconds into a
+// time.Duration, saturating rather than overflowing (a wrapped value would
+// make the client retry sooner than the server asked for).
+func retryAfterDuration(seconds int64) time.Duration {
+	if seconds > maxRetryAfterSeconds {
+		return time.Duration(math.MaxInt64)
+	}
+	if seconds < -maxRetryAfterSeconds {
+		return -time.Duration(math.MaxInt64)
+	}
+	return time.Duration(seconds) * time.Second
+}
 
 type backoffer interface {
 	// set adjusts/increases the current backoff interval (typically on retryable failure);
@@ -322,7 +340,7 @@ func (c *JSONClient) PostAndParseWithRetry(ctx context.Context, path string, req
 				// date string (RFC 7231 Section 7.1.3)
 				if retryAfter := httpRsp.Header.Get("Retry-After"); retryAfter != "" {
 					if seconds, err := strconv.Atoi(retryAfter); err == nil {
-						b := time.Duration(seconds) * time.Second
+						b := retryAfterDuration(int64(seconds))
 						backoff = &b
 					} else if date, err := time.Parse(time.RFC1123, retryAfter); err == nil {
 						b := time.Until(date)
